@@ -128,6 +128,51 @@ Definition reward_ops (rd cd : N) (p : pool) (common factor scale rate : N)
   | Some (com, rest) => OReward rest :: (if com =? 0 then [] else [ODeposit ent com])
   end.
 
+(* ---------- TransferFromCommon (state.go:953-1085) ----------
+   up to [amount] is moved from the common pool to the account's general
+   balance (MoveUpTo); nothing happens when that is zero. With [escrow]:
+   - pool WITH shares (TotalShares <> 0; this includes a pool slashed to zero
+     with shares outstanding): commission = t * rate / denominator, the rest is
+     moved from the general balance into the pool balance (no shares: it
+     belongs to all holders pro rata; a slashed-to-zero pool gets a price
+     again);
+   - pool with NO shares: everything counts as commission;
+   then the commission is deposited for the entity itself, unless the pool is
+   dead at that point (balance still zero with shares outstanding, i.e. the
+   pool was dead and the non-commission part was zero): then the commission
+   stays in the general balance. *)
+Record tacct := mkTA { tagen : N; tapool : pool; taself : N }.
+
+Record tres := mkTR {
+  trcode : code;
+  tracct : tacct;
+  trcommon : N;
+  trmoved : N;        (* taken from the common pool *)
+  trcom : N;          (* commission part *)
+  trminted : N        (* shares minted for the commission *)
+}.
+
+Definition transfer_from_common (cd : N) (a : tacct) (common amount : N) (escrow : bool) (rate : N) : tres :=
+  let t := N.min common amount in
+  if t =? 0 then mkTR COk a common 0 0 0
+  else if negb escrow then mkTR COk (mkTA (tagen a + t) (tapool a) (taself a)) (common - t) t 0 0
+  else
+    let p := tapool a in
+    match (if tsh p =? 0 then Some (t, 0) else compute_commission cd rate t) with
+    | None => mkTR CInsufficient a common 0 0 0
+    | Some (com, rest) =>
+        let p1 := mkPool (bal p + rest) (tsh p) in
+        let g1 := tagen a + t - rest in
+        let dead := (bal p1 =? 0) && negb (tsh p1 =? 0) in
+        if (com =? 0) || dead then mkTR COk (mkTA g1 p1 (taself a)) (common - t) t com 0
+        else
+          let r := deposit p1 (taself a) g1 com in
+          match rcode r with
+          | COk => mkTR COk (mkTA (rsrc r) (rpool r) (rdst r)) (common - t) t com (rret r)
+          | c => mkTR c a common 0 0 0
+          end
+    end.
+
 (* ---------- correspondence cases ---------- *)
 (* ((rd, cd), time, reward steps, min_rate, common, factor, att,
     accounts [(B, S, self shares, commission rate steps)]) ->
@@ -135,7 +180,8 @@ Definition reward_ops (rd cd : N) (p : pool) (common factor scale rate : N)
 Record rcase := mkRC {
   rc_rd : N; rc_cd : N; rc_time : N; rc_steps : list (N * N); rc_min : N;
   rc_common : N; rc_factor : N; rc_att : option (N * N);
-  rc_accts : list (N * N * N * list (N * N))
+  rc_accts : list (N * N * N * list (N * N));
+  rc_tfc : option (N * bool * N)     (* TransferFromCommon on the first account: amount, escrow, its general balance *)
 }.
 
 Definition rout := (code * list N)%type.
@@ -149,6 +195,15 @@ Definition flat (l : list racct) : list N :=
 
 Definition run_reward (c : rcase) : rout :=
   let accts := map (fun x => acct_of x (rc_time c) (rc_min c)) (rc_accts c) in
+  match rc_tfc c with
+  | Some (amount, escrow, general) =>
+      match accts with
+      | (a, rate) :: _ =>
+          let r := transfer_from_common (rc_cd c) (mkTA general (rapool a) (raself a)) (rc_common c) amount escrow rate in
+          (trcode r, [bal (tapool (tracct r)); tsh (tapool (tracct r)); taself (tracct r); tagen (tracct r); trcommon r])
+      | [] => (COk, [rc_common c])
+      end
+  | None =>
   match rc_att c with
   | None =>
       let '(code, out, cm) := add_rewards (rc_rd c) (rc_cd c) accts (rc_common c) (rc_factor c)
@@ -166,6 +221,7 @@ Definition run_reward (c : rcase) : rout :=
           end
       | [] => (COk, [rc_common c])
       end
+  end
   end.
 
 Definition rout_eqb (a b : rout) : bool :=
